@@ -247,6 +247,9 @@ class Client(object):
         reply = self.custom_command(b'STARTTLS')
         if reply.code == '220':
             self.encrypt(context)
+            # RFC 3207 4.2: what the server advertised in clear text must
+            # not be relied on any more, only a new EHLO can tell.
+            self.extensions.reset()
         return reply
 
     def auth(self, authcid, secret, authzid=None, mechanism=None):
